@@ -7,6 +7,7 @@ import (
 	"math/big"
 	"math/rand"
 	"time"
+	"verif/harness/derbuild"
 
 	"verif/harness/pki"
 )
@@ -20,6 +21,7 @@ type Shape struct {
 	Ext    string `json:"ext"`    // "none" | "reason" | "multi"
 	Enc    string `json:"enc"`    // "der" | "pem" | "pemcrlf"
 	Garble string `json:"garble"` // kind of garbage body: "text" | "random" | "empty" | "truncated"
+	Num    string `json:"num"`    // cRLNumber policy of successive lists: "inc" | "same" (reissued under the same number) | "absent" (no cRLNumber; v1 or v2 without it)
 }
 
 var (
@@ -39,6 +41,7 @@ func RandomShape(rng *rand.Rand) Shape {
 		Ext:    shapeExts[rng.Intn(len(shapeExts))],
 		Enc:    shapeEncs[rng.Intn(len(shapeEncs))],
 		Garble: shapeGarble[rng.Intn(len(shapeGarble))],
+		Num:    []string{"inc", "inc", "same", "absent"}[rng.Intn(4)],
 	}
 }
 
@@ -67,6 +70,7 @@ func nearMisses(x *big.Int) []*big.Int {
 	out := []*big.Int{
 		new(big.Int).Add(x, big.NewInt(16)), // differs in a bit that is not part of the abstract number
 		new(big.Int).Lsh(x, 8),              // one byte longer
+		new(big.Int).Neg(x),                 // sign variant: the same magnitude, negative
 	}
 	if x.BitLen() > 8 {
 		out = append(out, new(big.Int).Rsh(x, 8)) // one byte shorter
@@ -170,7 +174,15 @@ func BuildCRL(spec CRLSpec, s Shape) []byte {
 	if spec.CritExt {
 		crlExtra = []pkix.Extension{{Id: asn1.ObjectIdentifier{1, 3, 6, 1, 4, 1, 99999, 9}, Critical: true, Value: []byte{0x05, 0x00}}}
 	}
-	der := spec.Signer.StdCRLExt(spec.Number, entries, now, now.Add(24*time.Hour), crlExtra)
+	var der []byte
+	switch s.Num {
+	case "same":
+		der = spec.Signer.StdCRLExt(7, entries, now, now.Add(24*time.Hour), crlExtra)
+	case "absent":
+		der = buildWithoutNumber(spec, entries, now, crlExtra)
+	default:
+		der = spec.Signer.StdCRLExt(spec.Number, entries, now, now.Add(24*time.Hour), crlExtra)
+	}
 	switch s.Enc {
 	case "pem":
 		return pki.PEMCRL(der, false)
@@ -202,4 +214,39 @@ func (s Shape) Garbage(valid []byte, rng *rand.Rand) []byte {
 
 func (s Shape) String() string {
 	return fmt.Sprintf("%s/%s/%s/%s/%s", s.Size, s.Pos, s.Width, s.Ext, s.Enc)
+}
+
+// buildWithoutNumber renders the list with derbuild: a CRL without cRLNumber (a v1 CRL when there are no other
+// extensions to carry, otherwise v2 with the authority key identifier only).
+func buildWithoutNumber(spec CRLSpec, entries []pki.CRLEntry, now time.Time, crlExtra []pkix.Extension) []byte {
+	alg := derbuild.Algs["ecdsaWithSHA256"]
+	if spec.Signer.Alg == "rsa" {
+		alg = derbuild.Algs["sha256WithRSA"]
+	}
+	nu := now.Add(24 * time.Hour)
+	doc := &derbuild.Doc{Version: 2, Alg: alg, IssuerRaw: spec.Signer.Cert.RawSubject, ThisUpdate: now, NextUpdate: &nu, ListPresent: len(entries) > 0, ExtsPresent: true}
+	aki, _ := asn1.Marshal(struct {
+		KeyID []byte `asn1:"tag:0,optional"`
+	}{KeyID: spec.Signer.Cert.SubjectKeyId})
+	doc.Exts = append([]pkix.Extension{{Id: asn1.ObjectIdentifier{2, 5, 29, 35}, Value: aki}}, crlExtra...)
+	if len(crlExtra) == 0 && spec.Number%2 == 0 && spec.Signer.Cert.IsCA {
+		// a plain v1 CRL: no version field, no extensions at all (issuer matched by name)
+		doc.Version, doc.ExtsPresent, doc.Exts = 0, false, nil
+	}
+	for _, e := range entries {
+		de := derbuild.Entry{Serial: e.Serial, Date: e.Time}
+		if doc.Version == 2 {
+			if e.Reason != 0 {
+				r, _ := asn1.Marshal(asn1.Enumerated(e.Reason))
+				de.Exts = append(de.Exts, pkix.Extension{Id: asn1.ObjectIdentifier{2, 5, 29, 21}, Value: r})
+			}
+			de.Exts = append(de.Exts, e.Extra...)
+		}
+		doc.Entries = append(doc.Entries, de)
+	}
+	b, err := doc.Build(spec.Signer.Key)
+	if err != nil {
+		panic(err)
+	}
+	return b.DER
 }
